@@ -114,6 +114,7 @@ func c12Run(e *vh.Env, c c12Case, o *vh.Out) {
 		cfg.LoadBalancer.WebSocketPool = config.WebSocketPoolConfig{Enabled: true, MaxIdle: 4, MaxActive: 16, IdleTimeoutSeconds: 1}
 	}
 	cfg.Logging.RequestID.Enabled, cfg.Logging.Trace.Enabled = true, true
+	cfg.Server.Timeouts.Write = 1
 	sys, err := startSys(cfg, bes, true)
 	if err != nil {
 		o.Inconcl("startSys: %v", err)
@@ -135,7 +136,7 @@ func c12Run(e *vh.Env, c c12Case, o *vh.Out) {
 	defer vhook.Set(nil)
 	var done atomic.Int64
 	var opCount [9]atomic.Int64
-	var clientTimeouts atomic.Int64
+	var clientTimeouts, slowOps atomic.Int64
 	opStart := make([]atomic.Int64, c.G) // unix nanoseconds of the operation in flight (0: none)
 	var panics sync.Map
 	total := int64(c.G)
@@ -165,6 +166,11 @@ func c12Run(e *vh.Env, c c12Case, o *vh.Out) {
 				switch r.Intn(6) {
 				case 0:
 					sc = vh.Script{Status: 500}
+					if r.Intn(5) == 0 {
+						// an exchange that outlives the server's write timeout (1 s here): the deadline guard fires while the handler is busy
+						sc = vh.Script{Status: 200, Framing: "chunked", Steps: []vh.Step{{Op: "write", N: 50}, {Op: "flush"}, {Op: "sleep", Ms: 1300}, {Op: "write", N: 50}}}
+						slowOps.Add(1)
+					}
 				case 1:
 					sc = vh.Script{Status: 200, Framing: "cl", Declared: 3000, Steps: []vh.Step{{Op: "write", N: 100}, {Op: "flush"}, {Op: "closeconn"}}}
 				case 2:
@@ -327,6 +333,7 @@ loop:
 		o.Obs(fmt.Sprintf("ops_role_%d", i), opCount[i].Load())
 	}
 	o.Obs("operations", lastDone)
+	o.Obs("exchanges_outliving_the_write_timeout", slowOps.Load())
 	if stall != "" {
 		// keep the whole dump for the witness
 		path := fmt.Sprintf("%s/stall-%d.txt", e.TmpDir, c.Round)
